@@ -345,7 +345,8 @@ class Actor:
         kw = {}
         node = Actor(name, parent=self)
         if k == "clone":
-            tpl = self.templates[op["template"]]
+            # the template may also be a stage that already belongs to the OCP (a copy of a stage)
+            tpl = self.templates[op["template"]] if op["template"] in self.templates else self.sub[op["template"]]
             node.syms = dict(tpl.syms)  # a clone is addressed through its template's symbols
             node.spec = tpl.spec.clone()
         for key in ("T", "t0"):
@@ -359,7 +360,7 @@ class Actor:
         if k == "stage":
             node.ocp = self.ocp.stage(**kw)
         else:
-            node.ocp = self.ocp.stage(self.templates[op["template"]].ocp, **kw)
+            node.ocp = self.ocp.stage(tpl.ocp, **kw)
         self.sub[name] = node
         self.spec.stages.append([name, node.spec])
 
@@ -387,6 +388,8 @@ class Actor:
                 kw["scale"] = op["scale"]
             if kind == "state":
                 s = o.state(r, c, **kw)
+            elif kind == "qstate":
+                s = o.state(r, c, quad=True, **kw)
             elif kind == "control":
                 if op.get("order", 0):
                     kw["order"] = op["order"]
